@@ -296,3 +296,122 @@ def units_rule(db, ctx):
         if reached and not conflicts:
             ctx.ob("%s|consistent" % f.short(), True, "%s: %d use-sites with a known unit, all consistent" % (f.short(), reached), fn=f)
     ctx.ob("reached", total >= 3, "%d use-sites reached with a known unit (floor 3)" % total, nontrivial=False)
+
+
+def _fmt_template(v):
+    """literal pieces and placeholders of a compact format_args template (length-prefixed literals, high bytes = placeholders)"""
+    parts = []
+    i = 0
+    while i < len(v):
+        ch = v[i]
+        o = ord(ch)
+        if o == 0:
+            break
+        if ch == "\ufffd" or o >= 0x80 and o < 0x100:
+            if not parts or parts[-1] != "{}":
+                parts.append("{}")
+            i += 1
+            continue
+        if o < 0x80:
+            piece = v[i + 1:i + 1 + o]
+            # the length counts bytes; pieces here are ASCII except inside explicit alternations, where we resynchronise on the next control char
+            nb = 0
+            j = i + 1
+            while j < len(v) and nb < o:
+                nb += len(v[j].encode("utf-8")) if v[j] != "\ufffd" else 1
+                j += 1
+            parts.append(v[i + 1:j])
+            i = j
+            continue
+        i += 1
+    return parts
+
+
+def regex_source(db, static_suffix, depth=2):
+    """[literal | '{}'] pieces of the pattern a lazy_static Regex (or String) of sentence_detector is built from; a pattern taken from another
+    static is followed"""
+    inits = [f for k, f in db.fns.items() if "::sentence_detector::" in k and k.endswith("::deref::__static_ref_initialize") and ("::%s as " % static_suffix) in k]
+    if len(inits) != 1:
+        raise AnchorMissing("static %s initialiser" % static_suffix, "(%d)" % len(inits))
+    f = inits[0]
+    lits = [x for x, _ in walk(f.hir) if x.get("k") == "Lit" and x.get("t") in ("bytes", "str")]
+    refs = [x for x, _ in walk(f.hir) if x.get("k") == "Path" and x.get("res") == "def" and "::sentence_detector::" in (x.get("path") or "") and x["path"].split("::")[-1].isupper()
+            and x["path"].split("::")[-1] not in ("ALPHABET_OR_NUMBER", "DOT", "PERIODS", "COMMA", "BR_TAG", "CLOSE_PARENTHESIS", "OPEN_PARENTHESIS", "ITEMIZE_HEADER_PATTERN_")]
+    parts = []
+    if lits:
+        l0 = lits[0]
+        parts = _fmt_template(l0["v"]) if l0.get("t") == "bytes" and l0.get("mac") else [l0["v"]]
+    statics = [r["path"].split("::")[-1] for r in refs if any(("::%s as " % r["path"].split("::")[-1]) in k for k in db.fns)]
+    if statics and depth > 0:
+        inner = regex_source(db, statics[0], depth - 1)
+        if not parts:
+            parts = inner
+        else:
+            # splice the referenced pattern into the first placeholder
+            out = []
+            done = False
+            for p_ in parts:
+                if p_ == "{}" and not done:
+                    out += inner
+                    done = True
+                else:
+                    out.append(p_)
+            parts = out
+    return parts
+
+
+@rule("C16.regex-anchors", "the vetoing regexes keep their anchors: PROHIBITED_BOS starts at the candidate (\\A..), EOS_ITEMIZE_HEADER looks only at the END of the "
+                           "text before the candidate (..\\z), ITEMIZE_HEADER matches the whole text (^..$) — an unanchored header test fires for any "
+                           "earlier `3.` / `Ver.` in the window and merges sentences")
+def regex_anchors(db, ctx):
+    want = {"PROHIBITED_BOS": ("\\A", None), "EOS_ITEMIZE_HEADER": (None, "\\z"), "ITEMIZE_HEADER": ("^", "$")}
+    for nm, (pre, suf) in want.items():
+        parts = regex_source(db, nm)
+        txt = "".join(parts)
+        ok = bool(parts) and (pre is None or (parts[0] != "{}" and parts[0].startswith(pre))) and (suf is None or (parts[-1] != "{}" and parts[-1].endswith(suf)))
+        ctx.ob("%s|anchors" % nm, ok, "%s is built from `%s` (must %s%s)" % (nm, txt, ("start with %s " % pre) if pre else "", ("end with %s" % suf) if suf else ""))
+    ctx.floor(3)
+
+
+@rule("C16.lookup-offsets", "the offset handed to the dictionary look-up in has_non_break_word is an ABSOLUTE byte offset of the text that is handed to it: "
+                            "positions enumerated over a sub-slice (char_indices / bytes().enumerate() of input[a..b]) are relative to `a` and must be "
+                            "re-based before use")
+def lookup_offsets(db, ctx):
+    from ..db import deref_all
+    from ..origins import index as oindex
+    from ..inline import nf
+    f = db.view(db.one("has_non_break_word", "NonBreakChecker"))
+    bd = oindex(db).bindings(f)
+    n = 0
+    for c, ps in walk(f.hir):
+        if not (c.get("k") == "MethodCall" and c.get("method") == "lookup" and len(c["args"]) == 2):
+            continue
+        n += 1
+        off = c["args"][1]
+        rel_base = None
+        for x, _ in walk(off):
+            if x.get("k") == "Path" and x.get("res") == "local":
+                b_ = bd.get(x["lid"])
+                if b_ and b_[0] in ("for", "closure-param"):
+                    it = b_[1] if b_[0] == "for" else None
+                    if it is None:
+                        continue
+                    # walk down the adaptor chain to the iterated base
+                    cur = deref_all(it)
+                    names = []
+                    while isinstance(cur, dict) and cur.get("k") == "MethodCall":
+                        names.append(cur["method"])
+                        cur = deref_all(cur["recv"])
+                    if isinstance(cur, dict) and cur.get("k") == "Index" and set(names) & {"char_indices", "bytes", "chars", "enumerate", "as_bytes"}:
+                        rng = deref_all(cur["i"])
+                        if isinstance(rng, dict) and rng.get("k") == "Struct":
+                            st = {y["name"]: y["e"] for y in rng["fields"] if "e" in y}.get("start")
+                            if st is not None and lit_int(st) != 0:
+                                rel_base = nf(st)
+        ok = rel_base is None or (peel_casts(off).get("k") == "Binary" and peel_casts(off).get("op") == "Add" and rel_base in (nf(peel_casts(off)["l"]), nf(peel_casts(off)["r"])))
+        ctx.ob("has_non_break_word|lookup-offset-absolute", ok,
+               "lexicon.lookup(.., `%s`): %s" % (render(off), "absolute offset" if rel_base is None else
+                                                 ("position relative to the sub-slice starting at `%s`%s" % (rel_base, ", re-based" if ok else
+                                                  " used WITHOUT re-basing: identical to the absolute offset only while the window starts at 0 (boundary within the "
+                                                  "first 30 bytes)"))), fn=f, site=c.get("sp"))
+    ctx.floor(1)
